@@ -9,7 +9,7 @@
 From Coq Require Import List Arith ZArith NArith Bool Sorted Permutation.
 From Coq.Strings Require Import Byte.
 From RimeV Require Import Lookup.Defs Lookup.Model Lookup.Spec Lookup.MapProofs Lookup.QueryProofs Lookup.IterProofs
-     Lookup.LookupProofs Lookup.ScriptProofs Lookup.TableProofs Lookup.Examples Lookup.Compose Lookup.WeightProofs Lookup.LazyProofs Lookup.ComposeTable Lookup.ComposeAll.
+     Lookup.LookupProofs Lookup.ScriptProofs Lookup.TableProofs Lookup.Examples Lookup.Compose Lookup.WeightProofs Lookup.LazyProofs Lookup.ComposeTable Lookup.ComposePrism Lookup.ComposeAll.
 Import ListNotations.
 
 (** * Table::Query returns, at every end position, exactly the index codes that label a path of the graph *)
@@ -371,6 +371,75 @@ Theorem C07_script_candidates_exact_source_rows :
   spelled g code 0 e.
 Proof. exact script_candidates_source_rows. Qed.
 Print Assumptions C07_script_candidates_exact_source_rows.
+
+(** * composition with C09 (Dict/PrismModel.v): the table translator's prism input.  [prism_at p q] lists, for C09's
+    built prism [p], the keys extending [q] in ExpandSearch order with what QuerySpelling enumerates; what the lookup
+    model reads from it is what C09's ExpandSearch (any limit), its match lengths and GetValue return *)
+Theorem C07_prism_expand_faithful : forall fcred (fcast : Z -> fcred) (p : PM.prism fcred),
+  PP.wf_prism fcred p -> NoDup (PM.p_keys fcred p) ->
+  forall q L, expand_search (prism_at fcred fcast p q) (conv_text q) L =
+              map (conv_match fcred fcast p) (PM.expand_search fcred p q L).
+Proof. exact expand_search_prism_at. Qed.
+Print Assumptions C07_prism_expand_faithful.
+
+Theorem C07_prism_match_length : forall fcred (fcast : Z -> fcred) (p : PM.prism fcred),
+  PP.wf_prism fcred p -> NoDup (PM.p_keys fcred p) ->
+  forall q m, In m (PM.expand_search fcred p q 0) -> length (fst (conv_match fcred fcast p m)) = snd m.
+Proof. exact match_length. Qed.
+Print Assumptions C07_prism_match_length.
+
+Theorem C07_prism_exact_faithful : forall fcred (fcast : Z -> fcred) (p : PM.prism fcred),
+  PP.wf_prism fcred p ->
+  forall q, exact_key (prism_at fcred fcast p q) (conv_text q) =
+            option_map (spellings_of fcred fcast p) (PM.get_value fcred p q).
+Proof. exact exact_key_prism_at. Qed.
+Print Assumptions C07_prism_exact_faithful.
+
+(** end to end, table translator, completion off: from the source files (C06), the syllabary they yield, the algebra
+    rules (C09: compile_script, Prism::Build) and the input, the candidates are exactly the word rows of the syllables
+    the input spells with a normal spelling in the script the algebra produces (in non-increasing weight order:
+    C07_table_exact_weight_order with C07_compiled_index_sorted) *)
+Theorem C07_table_candidates_sound_end_to_end :
+  forall F (cast : Vo.dec -> F) (wz : F -> Z) fcred (fcast : Z -> fcred) sort_original files calcs sc,
+  let syls := Vo.co_syll (Vo.collect_files files) in
+  (forall s, In s syls -> s <> []) -> Al.compile_script syls calcs = Some sc ->
+  let t := conv_head F wz (Ix.build_head cast (length syls) (Vo.compile_vocab sort_original (Vo.collect_files files))) in
+  let p := PM.compile fcred fcast syls calcs in
+  forall smap code d,
+  In d (table_entries true false (prism_at fcred fcast p code) smap t (conv_text code)) ->
+  exists sid tx, d_code d = [sid] /\ d_text d = conv_text tx /\ d_remlen d = 0 /\
+                 spells_normal files sc code sid /\ word_row files sid tx.
+Proof. exact table_plain_sound. Qed.
+Print Assumptions C07_table_candidates_sound_end_to_end.
+
+Theorem C07_table_candidates_complete_end_to_end :
+  forall F (cast : Vo.dec -> F) (wz : F -> Z) fcred (fcast : Z -> fcred) sort_original files calcs sc,
+  let syls := Vo.co_syll (Vo.collect_files files) in
+  (forall s, In s syls -> s <> []) -> NoDup syls -> Al.compile_script syls calcs = Some sc ->
+  let t := conv_head F wz (Ix.build_head cast (length syls) (Vo.compile_vocab sort_original (Vo.collect_files files))) in
+  let p := PM.compile fcred fcast syls calcs in
+  forall smap code sid tx,
+  spells_normal files sc code sid -> word_row files sid tx ->
+  exists d, In d (table_entries true false (prism_at fcred fcast p code) smap t (conv_text code)) /\
+            d_code d = [sid] /\ d_text d = conv_text tx.
+Proof. exact table_plain_complete. Qed.
+Print Assumptions C07_table_candidates_complete_end_to_end.
+
+(** completion on, any number of fetches: every candidate is a word row of a syllable spelled, with a normal
+    spelling, by a key of the built prism that extends the input *)
+Theorem C07_table_completion_sound_end_to_end :
+  forall F (cast : Vo.dec -> F) (wz : F -> Z) fcred (fcast : Z -> fcred) sort_original files calcs sc,
+  let syls := Vo.co_syll (Vo.collect_files files) in
+  Al.compile_script syls calcs = Some sc ->
+  let t := conv_head F wz (Ix.build_head cast (length syls) (Vo.compile_vocab sort_original (Vo.collect_files files))) in
+  let p := PM.compile fcred fcast syls calcs in
+  forall smap code d,
+  In d (table_entries true true (prism_at fcred fcast p code) smap t (conv_text code)) ->
+  exists sid tx key, d_code d = [sid] /\ d_text d = conv_text tx /\ word_row files sid tx /\
+                     In key (PM.p_keys fcred p) /\ (exists w, key = code ++ w) /\
+                     exists v, PM.get_value fcred p key = Some v /\ In (sid, 0) (spellings_of fcred fcast p v).
+Proof. exact table_completion_sound_e2e. Qed.
+Print Assumptions C07_table_completion_sound_end_to_end.
 
 (** * non-vacuity *)
 Theorem C07_example_meets_hypotheses :
